@@ -121,25 +121,37 @@ Cond(form, s, tv, lim) ==
 \* j-th element of the reference sequence of n elements
 RefElem(form, a, s, n, j) == IF form = "fwd" THEN a + (j - 1) * s ELSE a + (n - j) * s
 
-\* The loop proper.  tv: loop variable, j: iterations done.  Result: m = iterations before
-\* the first event or the natural end, ev = the event (<<>>: natural end), ok = every
-\* iteration saw the reference's element (a walk that leaves the reference stops at once).
-IncEv(t, v) == LET A == AT(t) IN
-               IF ~InR(A.w, A.s, v) THEN <<"inc", IF A.s THEN 2 ELSE 1>>
-               ELSE IF ~InR(t.w, t.s, v) THEN <<"inc", 3>> ELSE <<>>
-RECURSIVE Walk(_, _, _, _, _, _, _, _)
-Walk(t, form, a, s, n, lim, tv, j) ==
-  IF ~Cond(form, s, tv, lim) THEN [m |-> j, ev |-> <<>>, ok |-> TRUE]
-  ELSE IF Special(t, form, s) THEN
-         LET y == tv - Abs(s) IN
-         IF IncEv(t, y) # <<>> THEN [m |-> j, ev |-> IncEv(t, y), ok |-> TRUE]
-         ELSE IF j + 1 > n \/ y # RefElem(form, a, s, n, j + 1) THEN [m |-> j + 1, ev |-> <<>>, ok |-> FALSE]
-         ELSE Walk(t, form, a, s, n, lim, y, j + 1)
+\* The loop proper.  c: constants of the loop (relation, signed increment d, bounds of the
+\* arithmetic type and of the target type, limit, reference sequence as r0 + j * rd);
+\* tv: loop variable, j: iterations done.  Result: m = iterations before the first event or
+\* the natural end, ev = the event (<<>>: natural end), ok = every iteration saw the
+\* reference's element (a walk that leaves the reference stops at once).
+LoopConsts(t, form, a, s, n, lim) ==
+  LET A == AT(t) IN
+  [sp |-> Special(t, form, s), d |-> IF Dec(form, s) THEN -Abs(s) ELSE Abs(s),
+   rel |-> IF form = "fwd" THEN (IF s < 0 THEN ">" ELSE "<") ELSE (IF s > 0 THEN ">=" ELSE "<="),
+   alo |-> IF A.s THEN -Pow2(A.w - 1) ELSE 0, ahi |-> IF A.s THEN Pow2(A.w - 1) - 1 ELSE Pow2(A.w) - 1, akind |-> IF A.s THEN 2 ELSE 1,
+   tlo |-> MinOf(t), thi |-> MaxOf(t), lim |-> lim, n |-> n,
+   r0 |-> RefElem(form, a, s, n, 0), rd |-> IF form = "fwd" THEN s ELSE -s]
+CondC(c, tv) == IF c.rel = "<" THEN tv < c.lim ELSE IF c.rel = ">" THEN tv > c.lim
+                ELSE IF c.rel = ">=" THEN tv >= c.lim ELSE tv <= c.lim
+IncEv(c, v) == IF v < c.alo \/ v > c.ahi THEN <<"inc", c.akind>>
+               ELSE IF v < c.tlo \/ v > c.thi THEN <<"inc", 3>> ELSE <<>>
+RECURSIVE Walk(_, _, _)
+Walk(c, tv, j) ==
+  IF ~CondC(c, tv) THEN [m |-> j, ev |-> <<>>, ok |-> TRUE]
+  ELSE IF c.sp THEN
+         \* for (t = b1 + k; t > b2 + k; ) { t -= k; body }
+         LET y == tv + c.d IN
+         IF IncEv(c, y) # <<>> THEN [m |-> j, ev |-> IncEv(c, y), ok |-> TRUE]
+         ELSE IF j + 1 > c.n \/ y # c.r0 + (j + 1) * c.rd THEN [m |-> j + 1, ev |-> <<>>, ok |-> FALSE]
+         ELSE Walk(c, y, j + 1)
        ELSE
-         IF j + 1 > n \/ tv # RefElem(form, a, s, n, j + 1) THEN [m |-> j + 1, ev |-> <<>>, ok |-> FALSE]
-         ELSE LET z == IF Dec(form, s) THEN tv - Abs(s) ELSE tv + Abs(s) IN
-              IF IncEv(t, z) # <<>> THEN [m |-> j + 1, ev |-> IncEv(t, z), ok |-> TRUE]
-              ELSE Walk(t, form, a, s, n, lim, z, j + 1)
+         \* for (t = b1; t < b2; t += k) { body }
+         IF j + 1 > c.n \/ tv # c.r0 + (j + 1) * c.rd THEN [m |-> j + 1, ev |-> <<>>, ok |-> FALSE]
+         ELSE LET z == tv + c.d IN
+              IF IncEv(c, z) # <<>> THEN [m |-> j + 1, ev |-> IncEv(c, z), ok |-> TRUE]
+              ELSE Walk(c, z, j + 1)
 
 Run(t, form, a, b, s) ==
   LET n  == RangeLen(a, b, s)
@@ -147,7 +159,7 @@ Run(t, form, a, b, s) ==
       lm == LoopLimit(t, form, a, b, s)
       e0 == OrEv(i0.ev, lm.ev)
   IN IF e0 # <<>> THEN [n |-> n, m |-> 0, ev |-> e0, ok |-> TRUE]
-     ELSE LET r == Walk(t, form, a, s, n, lm.v, i0.v, 0) IN [n |-> n, m |-> r.m, ev |-> r.ev, ok |-> r.ok]
+     ELSE LET r == Walk(LoopConsts(t, form, a, s, n, lm.v), i0.v, 0) IN [n |-> n, m |-> r.m, ev |-> r.ev, ok |-> r.ok]
 
 \* a body is exposed to the event unless it breaks out before: the increment after
 \* the m-th iteration (or the loop head, m = 0) is never executed by a body that breaks at k <= m
